@@ -25,6 +25,8 @@ NewNzAct(D) == last' = [op |-> "new", d |-> D, nz |-> TRUE, out |-> DurNew(D)] /
 NegNzAct == last' = [op |-> "negated", a |-> cur, nz |-> TRUE, out |-> Ok(NegDur(cur))] /\ cur' = cur
 AbsNzAct == last' = [op |-> "abs", a |-> cur, nz |-> TRUE, out |-> Ok(AbsDur(cur))] /\ cur' = cur
 SignNzAct == last' = [op |-> "sign", a |-> cur, nz |-> TRUE, out |-> Ok(DurSign(cur))] /\ cur' = cur
+\* ... and with half a unit added to one field: the fields of a duration are integers, anything else is refused
+NewHalfAct(D, k) == last' = [op |-> "new", d |-> D, half |-> k, out |-> ErrRange] /\ cur' = cur
 InRangeAct == last' = [op |-> "timeInRange", a |-> cur, out |-> Ok(TimeFieldsInRange(cur))] /\ cur' = cur
 AddAct(b) == LET o == DurAdd(cur, b) IN last' = [op |-> "add", a |-> cur, b |-> b, out |-> o] /\ cur' = Move(o)
 SubAct(b) == LET o == DurSub(cur, b) IN last' = [op |-> "subtract", a |-> cur, b |-> b, out |-> o] /\ cur' = Move(o)
@@ -39,6 +41,7 @@ Next == /\ (OneStep => last = None)
            \/ \E D \in Candidates : FromDayTimeAct(D)
            \/ NegAct \/ AbsAct \/ SignAct \/ InRangeAct
            \/ NegNzAct \/ AbsNzAct \/ SignNzAct \/ (\E D \in Candidates : NewNzAct(D))
+           \/ (cur = Anchor /\ \E D \in Candidates, k \in {"y", "d", "h", "s", "ns"} : NewHalfAct(D, k))
            \/ \E b \in Durs : AddAct(b) \/ SubAct(b) \/ CmpAct(b)
            \/ \E o \in RoundOpts : RoundAct(o)
            \/ \E u \in {"day", "hour", "minute", "second", "millisecond", "microsecond", "nanosecond", "week", "auto"} : TotalAct(u)
@@ -70,7 +73,7 @@ RoundLaws == last.op = "round" =>
 TotalLaws == last.op = "total" => (last.out.kind = "ok" =>
   /\ Eq(Mul(last.out.val.d, FromInt(1)), UnitNsBig(last.u))
   /\ DurTotal(NegDur(last.a), last.u) = Ok([n |-> Neg(last.out.val.n), d |-> last.out.val.d]))
-NewLaws == last.op = "new" => (last.out.kind = "ok") = ValidDur(last.d)
+NewLaws == last.op = "new" /\ "half" \notin DOMAIN last => (last.out.kind = "ok") = ValidDur(last.d)
 \* a bag is a TypeError exactly when it is empty; a full bag is the constructor; absent fields never turn a valid vector invalid
 PartialLaws == last.op = "fromPartial" =>
   /\ (last.out.kind = "type") = (DOMAIN last.p = {})
